@@ -217,12 +217,29 @@ void build(Ctx& ctx)
 	gCases.push_back({ 3, 0, 0, 0 });
 	for (int d : { 1, 4, 8 }) gCases.push_back({ 4, d, 0, 0 });
 	gCases.push_back({ 5, 0, 0, 0 });
+	for (int d : { 1, 4, 8 }) gCases.push_back({ 6, d, 0, 0 });
 }
 
 void runCase(std::size_t i, Ctx& ctx)
 {
 	const CaseDef& c = gCases[i];
 	if (c.kind == 5) { looseForms(ctx); return; }
+	if (c.kind == 6) {
+		// histories: every narrow bitmap is written straight after a wider one whose bytes are all ones (pixels and padding alike),
+		// in this process; which worker ran which case before must not decide whether a writer's kept state is seen
+		for (int32_t w = 0; w <= 40; ++w) for (int32_t h : { 1, -2, 3 }) {
+			uint64_t widePitch = ref::RBmp::pitchOf(c.depth, 64 * 8 / c.depth + 8);
+			std::vector<uint8_t> ones(std::size_t(widePitch * 3), 0xFF);
+			std::vector<Color> pal; for (int i = 0; i < (1 << c.depth); ++i) pal.push_back(Color{ 0xFF, 0xFF, 0xFF, 0xFF });
+			auto o = mc::guarded([&] { writeBmp(BitmapFile::CreateIndexed(uint16_t(c.depth), uint32_t(64 * 8 / c.depth + 8), 3, pal, ones)); });
+			if (o.cls != 'R') { ctx.violation("C08/history/wide-bitmap-refused", "depth " + std::to_string(c.depth), o.what); return; }
+			accepted(ctx, c.depth, w, h, 0, 0);
+			o = mc::guarded([&] { writeBmp(BitmapFile::CreateIndexed(uint16_t(c.depth), uint32_t(64 * 8 / c.depth + 8), -3, pal, ones)); });
+			factory(ctx, c.depth, w, h);
+			ctx.count("history/after-a-wider-bitmap-of-ones");
+		}
+		return;
+	}
 	if (c.kind == 0) {
 		for (int32_t wi = c.w0; wi < c.w1; ++wi) for (int32_t h : gHeights) for (int pal = 0; pal < 4; ++pal) for (uint32_t imp = 0; imp < 2; ++imp) accepted(ctx, c.depth, gWidths[wi], h, pal, imp);
 		if (c.depth == 4 && c.w0 == 6) ctx.sample("accepted BMP " + keyOf(4, gWidths[c.w0], -2, 1, 0) + ": read, validate, geometry, write == well-formed with zero padding, re-read, flip, double flip");
